@@ -99,6 +99,7 @@ func (h *hist) plan(nreq int) []step {
 func (h *hist) run(nreq int) {
 	for _, s := range h.plan(nreq) {
 		if h.nviol > 25 {
+			h.aborted = true
 			break
 		}
 		h.step(s)
@@ -116,7 +117,7 @@ func (h *hist) step(s step) {
 		h.rawPut(h.pickUpload())
 	case "raw-multipart":
 		k, _ := strconv.Atoi(s.class)
-		h.rawMultipart(s.class, h.pickUploads(k))
+		h.rawMultipart(s.class, h.multipartParts(k))
 	case "upload-file":
 		h.uploadFile()
 	case "client-stat":
@@ -307,9 +308,71 @@ func (h *hist) rawMultipart(class string, bs []sto.Blob) bool {
 		h.markUploaded(b)
 	}
 	if u.ErrorText != "" && ok {
-		h.bad("upload/error-text", "all parts acknowledged but errorText=%q", clip(u.ErrorText, 200))
+		h.note("events", "upload-errortext-although-all-received") // not a map-semantics question
+	}
+	if ok {
+		// read-your-writes: what was acknowledged is stat-able right away
+		refs := make([]string, len(bs))
+		for i, b := range bs {
+			refs[i] = b.Ref.String()
+		}
+		h.classes["stat.raw.POST.after-upload"]++
+		if r, err := h.raw.statPOST(refs, ""); err != nil {
+			h.reqErr("stat", err)
+		} else if r.Status != 200 {
+			h.bad("stat/status", "stat after upload: status %d", r.Status)
+		} else if s, err := parseStat(r.Body); err != nil || !s.hasStat {
+			h.bad("stat/bad-json", "stat after upload: %v", err)
+		} else {
+			h.checkStat("upload/acked-then-stat", refs, s.Stat)
+		}
 	}
 	return ok
+}
+
+// multipartParts picks k parts: a third of them brand-new blobs (so that every position of
+// a large request, the last ones in particular, carries a blob the server cannot have yet).
+func (h *hist) multipartParts(k int) []sto.Blob {
+	nFresh := k / 3
+	if k >= 2 && nFresh == 0 && h.rng.Intn(2) == 0 {
+		nFresh = 1
+	}
+	old := h.pickUploads(k - nFresh)
+	var fresh []sto.Blob
+	for len(fresh) < nFresh {
+		fresh = append(fresh, h.freshBlob())
+	}
+	parts := append(old, fresh...)
+	if h.rng.Intn(2) == 0 {
+		h.rng.Shuffle(len(parts), func(i, j int) { parts[i], parts[j] = parts[j], parts[i] })
+	}
+	return parts
+}
+
+// freshBlob generates a blob that was never seen before and adds it to the universe.
+func (h *hist) freshBlob() sto.Blob {
+	for {
+		n := h.rng.Intn(300)
+		switch h.rng.Intn(12) {
+		case 0:
+			n = 0
+		case 1:
+			n = 4095 + h.rng.Intn(3)
+		}
+		data := make([]byte, n)
+		h.rng.Read(data)
+		if n > 8 && h.rng.Intn(3) == 0 {
+			data = []byte(fmt.Sprintf("fresh text blob %d %d", h.rng.Int63(), n))
+		}
+		b := sto.Blob{Ref: sto.RefOf([]string{"sha224", "sha224", "sha224", "sha1", "sha256"}[h.rng.Intn(5)], data), Data: data}
+		r := b.Ref.String()
+		if _, dup := h.data[r]; dup {
+			continue
+		}
+		h.data[r] = data
+		h.universe = append(h.universe, b)
+		return b
+	}
 }
 
 // uploadFile uploads the chunks of a real file (several multipart requests) and then its
@@ -400,13 +463,16 @@ func (h *hist) checkStat(pfx string, asked []string, got []sizedRef) {
 		want[r] = true
 	}
 	seen := map[string]int{}
+	dups := 0
 	for _, sb := range got {
 		seen[sb.BlobRef]++
 		switch {
 		case !want[sb.BlobRef]:
 			h.bad(pfx+"/unasked", "answer lists %s which was not asked for", sb.BlobRef)
-		case seen[sb.BlobRef] == 2:
-			h.bad(pfx+"/dup", "answer lists %s twice", sb.BlobRef)
+		case seen[sb.BlobRef] > 1:
+			if dups++; dups == 1 {
+				h.bad(pfx+"/dup", "asked for %d distinct refs: %s is reported twice (%d entries in the answer)", len(asked), sb.BlobRef, len(got))
+			}
 		case h.known(sb.BlobRef):
 			if sb.Size == nil || *sb.Size != h.present[sb.BlobRef] {
 				h.bad(pfx+"/size", "%s reported with size %s, true size %d", sb.BlobRef, fmtSize(sb.Size), h.present[sb.BlobRef])
@@ -1072,9 +1138,10 @@ func (h *hist) rawChain(class string) {
 	pages := 0
 	maxPages := len(h.present) + len(h.maybe) + 5
 	for {
+		before := h.nbad
 		e := h.onePage(q, limit)
-		if e == nil {
-			return
+		if e == nil || h.nbad > before {
+			return // already reported: the rest of the chain would only repeat it
 		}
 		pages++
 		for _, sb := range e.Blobs {
